@@ -184,6 +184,9 @@ def check_common(F, rep):
             if c.callee_qual == "parse::ParsingTable::new" and "dynamic::Dyn" in " ".join(c.callee.get("generics") or []):
                 a = [norm(x) for x in c.arg_values()]
                 b = a[2]
+                ehdr_ = F_(P(1), "ehdr")
+                if a[0] != F_(ehdr_, "endianness") or a[1] != F_(ehdr_, "class"):
+                    continue
                 if b[0] == "slice" and b[1] == F_(P(1), "data"):
                     flds = prov.leaves_fields(b)
                     names = {f[2] for f in flds}
